@@ -75,6 +75,10 @@ def validate_graph_seg_match(
         coord.append(last_node_data["y"])
         coord.append(last_node_data["x"])
 
+    # the time coordinate is a frame index: it is stored unscaled, whatever the scale of
+    # the time axis is
+    scale = [1.0, *scale[1:]]
+
     # Check bounds
     for i, (c, s) in enumerate(zip(coord, segmentation.shape, strict=False)):
         pixel_coord = int(c / scale[i])
